@@ -66,6 +66,7 @@ pub struct RandCfg {
     pub observers: bool,
     pub replay_welcomes: bool,
     pub junk: bool,
+    pub groups2: bool,
     pub adversary: bool,
 }
 
@@ -101,12 +102,28 @@ pub fn random_history(cfg: &RandCfg, rng: &mut StdRng, r: &mut Recorder, clients
         }
     }
     r.emit(w.op_create(clients[0], "g1", &members, &admins));
-
-    // chains each client has held (for the epoch-causal regime)
-    let mut held: BTreeMap<String, BTreeSet<String>> = BTreeMap::new();
-    for c in clients {
-        held.entry(c.to_string()).or_default().insert(String::new());
+    // optionally a second group with overlapping membership, created by another client
+    let two = cfg.groups2 && rng.gen_bool(0.7);
+    let mut g2_members: Vec<String> = vec![];
+    if two {
+        let creator = clients[1];
+        for x in clients { if *x != creator && rng.gen_bool(0.6) { g2_members.push(x.to_string()); } }
+        if g2_members.is_empty() { g2_members.push(clients[0].to_string()); }
+        let mut adm2 = vec![creator.to_string()];
+        for m in &g2_members { if rng.gen_bool(0.4) { adm2.push(m.clone()); } }
+        r.emit(w.op_create(creator, "g2", &g2_members, &adm2));
+        g2_members.push(creator.to_string());
     }
+
+    // chains each client has held, per group (for the epoch-causal regime)
+    let mut held: BTreeMap<(String, String), BTreeSet<String>> = BTreeMap::new();
+    for c in clients {
+        held.entry((c.to_string(), "g1".to_string())).or_default();
+        held.entry((c.to_string(), "g2".to_string())).or_default();
+    }
+    held.get_mut(&(clients[0].to_string(), "g1".to_string())).unwrap().insert(String::new());
+    for m in &members { held.get_mut(&(m.clone(), "g1".to_string())).unwrap().insert(String::new()); }
+    for m in &g2_members { held.get_mut(&(m.clone(), "g2".to_string())).unwrap().insert(String::new()); }
     let mut clock: u64 = 10;
     let mut used_ranks: BTreeSet<u64> = BTreeSet::new();
     let mut delivered: BTreeSet<String> = BTreeSet::new();
@@ -114,14 +131,13 @@ pub fn random_history(cfg: &RandCfg, rng: &mut StdRng, r: &mut Recorder, clients
     // a client that swapped its own MLS identity (adversarial raw commit) is the attacker's own wreck: it takes no further part
     let mut tainted: BTreeSet<String> = BTreeSet::new();
     let mut withdrawn: BTreeSet<String> = BTreeSet::new();
-    let g = "g1";
-
-    let note_chain = |w: &mut World, held: &mut BTreeMap<String, BTreeSet<String>>, c: &str| {
-        let ch = w.chain_of(c, "g1", None);
-        held.entry(c.to_string()).or_default().insert(ch);
+    let note_chain = |w: &mut World, held: &mut BTreeMap<(String, String), BTreeSet<String>>, c: &str, g: &str| {
+        let ch = w.chain_of(c, g, None);
+        if !ch.starts_with('?') { held.entry((c.to_string(), g.to_string())).or_default().insert(ch); }
     };
 
     for _ in 0..cfg.steps {
+        let g: &str = if two && rng.gen_bool(0.4) { "g2" } else { "g1" };
         let mut c = clients[rng.gen_range(0..n)].to_string();
         if tainted.contains(&c) { continue; }
         let roll = rng.gen_range(0..100);
@@ -176,7 +192,18 @@ pub fn random_history(cfg: &RandCfg, rng: &mut StdRng, r: &mut Recorder, clients
                     if adm.is_empty() { adm.push(cur_members[0].clone()); }
                     Some(exec_action(&mut w, &json!({"op":"Commit","c":c,"g":g,"kind":"admins","arg":adm,"ts":ts,"rank":rk})))
                 }
-                3 => Some(exec_action(&mut w, &json!({"op":"Commit","c":c,"g":g,"kind":"rotate","arg":"","ts":ts,"rank":rk}))),
+                3 => {
+                    // now and then a hostile admin rotates onto the OTHER group's nostr id
+                    let other = if g == "g1" { "g2" } else { "g1" };
+                    // (the id of a group is public on the relays; the hostile admin itself is not a member of that group,
+                    //  so only OTHER members of its own group that also belong to the victim group are hit)
+                    let arg = if two && cfg.adversary && rng.gen_bool(0.5) && w.project(&c, other)["st"] == json!("none") {
+                        let mut on = String::new();
+                        for x in clients { let p = w.project(x, other); if p["mls"] == json!("ok") { on = p["rec"]["nid"].as_str().unwrap_or("").to_string(); break; } }
+                        if on.is_empty() { String::new() } else { format!("={on}") }
+                    } else { String::new() };
+                    Some(exec_action(&mut w, &json!({"op":"Commit","c":c,"g":g,"kind":"rotate","arg":arg,"ts":ts,"rank":rk})))
+                }
                 _ => Some(exec_action(&mut w, &json!({"op":"Leave","c":c,"g":g,"ts":ts,"rank":rk}))),
             }
         } else if members_profile && roll < 9 {
@@ -277,7 +304,8 @@ pub fn random_history(cfg: &RandCfg, rng: &mut StdRng, r: &mut Recorder, clients
                 let idx = if rng.gen_bool(0.7) { k - 1 - rng.gen_range(0..k.min(4)) } else { rng.gen_range(0..k) };
                 let e = w.ev_order[idx].clone();
                 let parent = w.events[&e].parent.clone();
-                let ok = (cfg.regime != "causal" || held[&c].contains(&parent) || w.events[&e].kind == "junk") && !withdrawn.contains(&e);
+                let eg = w.events[&e].g.clone();
+                let ok = (cfg.regime != "causal" || held[&(c.clone(), eg.clone())].contains(&parent) || w.events[&e].kind == "junk") && !withdrawn.contains(&e);
                 if ok {
                     delivered.insert(e.clone());
                     let mut rk = rank;
@@ -292,7 +320,8 @@ pub fn random_history(cfg: &RandCfg, rng: &mut StdRng, r: &mut Recorder, clients
         };
         if let Some(v) = rec {
             r.emit(v);
-            note_chain(&mut w, &mut held, &c);
+            note_chain(&mut w, &mut held, &c, "g1");
+            if two { note_chain(&mut w, &mut held, &c, "g2"); }
         }
     }
 
@@ -322,11 +351,12 @@ pub fn random_history(cfg: &RandCfg, rng: &mut StdRng, r: &mut Recorder, clients
         for (c, e) in order {
             if tainted.contains(&c) { continue; }
             let parent = w.events[&e].parent.clone();
+            let g: &str = &w.events[&e].g.clone();
             // observers (clients without an operational group: never added, pending, evicted) are fed everything
             // ... and late joiners are also handed the events created before they joined
             let observer = cfg.observers && (w.project(&c, g)["mls"] != json!("ok")
-                || held[&c].iter().any(|h| h.len() > parent.len() && (parent.is_empty() || h.starts_with(&format!("{parent}.")))));
-            if withdrawn.contains(&e) || (cfg.regime == "causal" && !held[&c].contains(&parent) && !observer && w.events[&e].kind != "junk") {
+                || held[&(c.clone(), g.to_string())].iter().any(|h| h.len() > parent.len() && (parent.is_empty() || h.starts_with(&format!("{parent}.")))));
+            if withdrawn.contains(&e) || (cfg.regime == "causal" && !held[&(c.clone(), g.to_string())].contains(&parent) && !observer && w.events[&e].kind != "junk") {
                 continue;
             }
             let before = fingerprint(&w.project(&c, g));
@@ -336,13 +366,14 @@ pub fn random_history(cfg: &RandCfg, rng: &mut StdRng, r: &mut Recorder, clients
             if v["out"] != json!("") { used_ranks.insert(clock * 100 + rk); }
             let after = fingerprint(&v["post"]);
             r.emit(v);
-            note_chain(&mut w, &mut held, &c);
+            note_chain(&mut w, &mut held, &c, g);
             if before != after {
                 changed = true;
             }
         }
         if !changed || passes >= 6 {
-            let posts: Vec<Value> = clients.iter().filter(|c| !tainted.contains(**c)).map(|c| json!({"c":c,"g":g,"post":w.project(c, g)})).collect();
+            let mut posts: Vec<Value> = clients.iter().filter(|c| !tainted.contains(**c)).map(|c| json!({"c":c,"g":"g1","post":w.project(c, "g1")})).collect();
+            if two { posts.extend(clients.iter().filter(|c| !tainted.contains(**c)).map(|c| json!({"c":c,"g":"g2","post":w.project(c, "g2")}))); }
             r.emit(json!({"op":"Quiesce","passes":passes,"stable":!changed,"regime":cfg.regime,"posts":posts}));
             break;
         }
@@ -500,7 +531,7 @@ pub fn run_random(cfg: &RandCfg, r: &mut Recorder) {
         "mixed" => clients.iter().enumerate().filter(|(i, _)| i % 2 == 1).map(|(_, c)| *c).collect(),
         _ => vec![],
     };
-    r.emit(meta(&clients, &["g1"], &sql, &cfg.mdk));
+    r.emit(meta(&clients, &["g1", "g2"], &sql, &cfg.mdk));
     let mut rng = StdRng::seed_from_u64(cfg.seed);
     for _ in 0..cfg.histories {
         if cfg.profile == "welcome" { welcome_history(cfg, &mut rng, r, &clients); }
